@@ -2215,6 +2215,7 @@ class Mailbox:
         fetch_ops: list[FetchAtt],
         uid_cmd: bool = False,
         timeout_cm: asyncio.Timeout | None = None,
+        read_only: bool = False,
     ) -> AsyncIterator[tuple[int, list[bytes]]]:
         """
         Go through the messages in the mailbox. For the messages that are
@@ -2241,6 +2242,9 @@ class Mailbox:
         - `fetch_ops`: The things to fetch for the messags indiated in
           msg_set
         - `uid_cmd`: whether or not this is a UID command.
+        - `read_only`: the client has the mailbox open read-only (EXAMINE):
+          fetching must not change any flags (neither the implicit Seen flag
+          of a non-PEEK body fetch nor the Recent flag.)
         """
 
         if not self.msg_keys:
@@ -2342,7 +2346,7 @@ class Mailbox:
                 # sequence. Only one client gets to actually see that a
                 # message is 'Recent.'
                 #
-                if fetched_flags:
+                if fetched_flags and not read_only:
                     if msg_key in self.sequences["Recent"]:
                         no_longer_recent_msgs.add(msg_key)
 
@@ -2351,7 +2355,7 @@ class Mailbox:
                 # in it) and added to the 'Seen' sequence (if it was not in
                 # it.)
                 #
-                if fetched_body_seen:
+                if fetched_body_seen and not read_only:
                     if msg_key in self.sequences["unseen"]:
                         no_longer_unseen_msgs.add(msg_key)
 
